@@ -275,11 +275,33 @@ func (C06) Gen(r *core.Rng, tier string, emit func(string)) {
 		emit(fmt.Sprintf("resolve %d %d %s G %s", d, c, fmtAdds(as), certs))
 	}
 	formats := []string{"pbf", "png", "jpg", "webp", "avif"}
-	for i := 0; i < nConv; i++ {
+	// tiles around buffer-size boundaries (4 KiB, 64 KiB, 1 MiB, several MiB): one big blob among small ones
+	bigSizes := []int{4095, 4096, 65535, 65536, 65537, 1<<20 - 1, 1 << 20, 1<<20 + 1, 1<<20 + 4097, 3 << 20}
+	nBig := 3
+	if tier == "thorough" {
+		nBig = len(bigSizes) * 2
+	}
+	for i := 0; i < nConv+nBig; i++ {
 		rows := randRows(r)
 		f := formats[r.Intn(len(formats))]
 		if i%2 == 0 {
 			f = "pbf"
+		}
+		if i >= nConv && len(rows) > 0 {
+			sz := bigSizes[(i-nConv+int(r.U64()%uint64(len(bigSizes))))%len(bigSizes)]
+			if tier != "thorough" && i == nConv {
+				sz = 1<<20 + 1 + r.Intn(5000)
+			}
+			big := make([]byte, sz)
+			st := r.U64()
+			for k := range big {
+				if k%64 == 0 {
+					st = st*6364136223846793005 + 1442695040888963407
+				}
+				big[k] = byte(st>>56) + byte(k>>12)
+			}
+			rows[r.Intn(len(rows))].blob = big
+			f = []string{"png", "pbf"}[i%2]
 		}
 		meta := randMbMetadata(r, f)
 		certs := ""
